@@ -6,6 +6,11 @@ HERE = os.path.dirname(os.path.abspath(__file__))
 
 # id -> (level, technique, text, note)   (only implemented checks are listed; the rest go to not_applicable)
 CHECKS = {
+    "C19": ("model_checking",
+            "exhaustive enumeration of /W array shapes (groups x forms x lengths x spacings x every insertion order x DW), simple-font tables, all small code->text maps through the CMap writer, and conformant CMap texts with bounded spelling deviations, checked against map-based reference models",
+            "The width table grows at both ends depending on insertion order, so every permutation of up to 4 groups is enumerated and every code near a range end is queried; the CMap writer is round-tripped for all maps of <=3 entries over boundary codes/texts; producer-written CMaps (bfchar, both bfrange forms, mixed) must read as the specification defines.",
+            "Trusted: reference models (BTreeMap). More than 4 groups / 3 widths per group and larger maps are outside the bound.",
+            "§5 C19"),
     "C06": ("model_checking",
             "deviation-bounded exhaustive exploration of encryption configurations (17 handler variants x <=2/<=3 deviations of passwords, permissions, ID, flags, object ids, lengths, spellings), documents produced by an independent encryptor and read with the real library under correct and wrong passwords",
             "Each configuration is materialised as a file by an encryptor written from the specification (validated against 10 third-party fixtures), opened with user and owner password (all strings, streams, metadata, compressed strings and the encryption dictionary's own strings compared with plaintext) and with wrong passwords (must be InvalidPassword).",
